@@ -12,10 +12,10 @@ cd $WT && git checkout -q -- . && git apply $D/patch.diff || { log "patch does n
 cmake --build $B -j8 --target relic_s $TESTS >/dev/null 2>&1 || { log "build failed with patch"; git checkout -q -- .; exit 1; }
 TP=1
 for t in $TESTS; do if ! (cd $B && ./bin/$t >/tmp/seed_$t.log 2>&1); then TP=0; log "$t FAILS with the patch"; fi; if grep -q "FAIL" /tmp/seed_$t.log; then TP=0; log "$t prints FAIL"; fi; done
-gcc -O1 -I$WT/include -I$B/include $D/demo.c $B/lib/librelic_s.a -lcrypto -lgmp -o /tmp/seed_demo 2>/dev/null || { log "demo does not compile"; }
+gcc -O1 -I$WT/include -I$B/include $D/demo.c $B/lib/librelic_s.a -lcrypto -lgmp -lpthread -o /tmp/seed_demo 2>/dev/null || { log "demo does not compile"; }
 /tmp/seed_demo >/tmp/seed_demo1.log 2>&1; R1=$?
 git checkout -q -- . && cmake --build $B -j8 --target relic_s >/dev/null 2>&1
-gcc -O1 -I$WT/include -I$B/include $D/demo.c $B/lib/librelic_s.a -lcrypto -lgmp -o /tmp/seed_demo 2>/dev/null
+gcc -O1 -I$WT/include -I$B/include $D/demo.c $B/lib/librelic_s.a -lcrypto -lgmp -lpthread -o /tmp/seed_demo 2>/dev/null
 /tmp/seed_demo >/tmp/seed_demo0.log 2>&1; R0=$?
 log "tests pass with patch: $TP ; demo rc with patch: $R1 ; demo rc without: $R0"
 if [ $TP != 1 ] || [ $R1 = 0 ] || [ $R0 != 0 ]; then log "NOT CONFIRMED"; exit 2; fi
